@@ -59,8 +59,8 @@ func (sl *serialWriter) Write(al plugintypes.AuditLog) error {
 		return nil
 	}
 
-	sl.logger.Println(string(bts))
-	return nil
+	// same bytes as Println, but a failed write (disk full, file size limit) is reported
+	return sl.logger.Output(2, string(bts)+"\n")
 }
 
 var _ plugintypes.AuditLogWriter = (*serialWriter)(nil)
